@@ -352,6 +352,27 @@ func lemmaViewMergeCommutative(a, b *ClusterView) (ab, ba *ClusterView) {
 	return ab, ba
 }
 
+// one merge step (copy, then MergeFrom) is the join of the two memberships: the result holds exactly the ids of
+// both, and for every id the entry with the larger (Generation, LogicalClock) key
+//@ pure isJoin(x *ClusterView, a *ClusterView, b *ClusterView) bool =
+//@     forall id string :: (id in x.Members <==> (id in a.Members || id in b.Members)) &&
+//@       (id in x.Members ==> (id in a.Members ==> !lexgt(a.Members[id], x.Members[id])) && (id in b.Members ==> !lexgt(b.Members[id], x.Members[id])) &&
+//@                            ((id in a.Members && samekey(x.Members[id], a.Members[id])) || (id in b.Members && samekey(x.Members[id], b.Members[id]))))
+//@ func lemmaMergeIsJoin
+//@   requires a != nil && b != nil && a != b && a.Members != b.Members && wfView(a) && wfView(b) && disjointViews(a, b)
+//@   requires len(a.Members) + len(b.Members) <= effLimit(a.MaxVersionVectorEntries)
+//@   ensures  result != nil && fresh(result) && result.Members != nil && fresh(result.Members) && wfView(result)
+//@   ensures  forall id string :: id in result.Members ==> fresh(result.Members[id])
+//@   ensures  result.MaxVersionVectorEntries == a.MaxVersionVectorEntries && len(result.Members) <= len(a.Members) + len(b.Members)
+//@   ensures  isJoin(result, a, b)
+func lemmaMergeIsJoin(a, b *ClusterView) *ClusterView {
+	x := a.Snapshot()
+	x.MergeFrom(b)
+	return x
+}
+
+// associativity of the membership join, over lemmaMergeIsJoin's contract (which is proved against the real
+// Snapshot / MergeFrom above)
 //@ func lemmaViewMergeAssociative
 //@   requires a != nil && b != nil && c != nil && a != b && a != c && b != c && a.Members != b.Members && a.Members != c.Members && b.Members != c.Members
 //@   requires wfView(a) && wfView(b) && wfView(c) && disjointViews(a, b) && disjointViews(a, c) && disjointViews(b, c)
@@ -359,13 +380,10 @@ func lemmaViewMergeCommutative(a, b *ClusterView) (ab, ba *ClusterView) {
 //@   requires len(a.Members) + len(b.Members) + len(c.Members) <= effLimit(b.MaxVersionVectorEntries)
 //@   ensures  sameMembership(left, right)
 func lemmaViewMergeAssociative(a, b, c *ClusterView) (left, right *ClusterView) {
-	left = a.Snapshot()
-	left.MergeFrom(b)
-	left.MergeFrom(c)
-	bc := b.Snapshot()
-	bc.MergeFrom(c)
-	right = a.Snapshot()
-	right.MergeFrom(bc)
+	ab := lemmaMergeIsJoin(a, b)
+	left = lemmaMergeIsJoin(ab, c)
+	bc := lemmaMergeIsJoin(b, c)
+	right = lemmaMergeIsJoin(a, bc)
 	return left, right
 }
 
